@@ -1428,8 +1428,14 @@ enum Drv<T> {
 /// Drive `fut` with a fresh waker identity per poll; `w` is advanced.  After every poll the parked
 /// wakers fire; the future is polled again only if the waker of the latest poll was woken — never
 /// busy-polled.
-fn drive<T>(mut fut: Pin<&mut (dyn Future<Output = T> + '_)>, w: &Cell<usize>, polls: &RefCell<Vec<PollRec>>) -> Drv<T> {
-    for _ in 0..FUEL {
+fn drive<T>(fut: Pin<&mut (dyn Future<Output = T> + '_)>, w: &Cell<usize>, polls: &RefCell<Vec<PollRec>>) -> Drv<T> {
+    drive_hook(fut, w, polls, &mut |_| {})
+}
+/// `before_poll(n)` runs before every poll, `n` = number of Pending answers so far (this is where the
+/// owner of the future — the factory / the service it came from — is dropped in the `facd` / `calld` ops)
+fn drive_hook<T>(mut fut: Pin<&mut (dyn Future<Output = T> + '_)>, w: &Cell<usize>, polls: &RefCell<Vec<PollRec>>, before_poll: &mut dyn FnMut(usize)) -> Drv<T> {
+    for n in 0..FUEL {
+        before_poll(n);
         let id = w.get();
         let waker = make_waker(id);
         let mut cx = Context::from_waker(&waker);
@@ -1532,9 +1538,12 @@ fn side_ready(ast: &S, w: usize) -> Option<Option<Result<(), u32>>> {
     .ok()
 }
 fn side_call(ast: &S, req: u32, w: usize) -> Option<Result<u32, u32>> {
-    let u = unwrapped(ast);
+    side_call_of(&unwrapped(ast), req, w)
+}
+/// the real answer of `call(req)` on a fresh build of `u`, the service kept alive during the drive
+fn side_call_of(u: &S, req: u32, w: usize) -> Option<Result<u32, u32>> {
     on_the_side(|| {
-        let svc = build_svc(&u);
+        let svc = build_svc(u);
         let wc = Cell::new(w + 1000);
         let polls = RefCell::new(vec![]);
         let mut fut = svc.call(req);
@@ -1547,9 +1556,12 @@ fn side_call(ast: &S, req: u32, w: usize) -> Option<Result<u32, u32>> {
     .flatten()
 }
 fn side_fac(f: &F, cfg: u32, w: usize) -> Option<Result<(), u32>> {
-    let u = fac_unwrapped(f);
+    side_fac_of(&fac_unwrapped(f), cfg, w)
+}
+/// the real answer of `new_service(cfg)` on a fresh build of `u`, the factory kept alive during the drive
+fn side_fac_of(u: &F, cfg: u32, w: usize) -> Option<Result<(), u32>> {
     on_the_side(|| {
-        let fac = build_fac(&u);
+        let fac = build_fac(u);
         let wc = Cell::new(w + 1000);
         let polls = RefCell::new(vec![]);
         let mut fut = fac.new_service(cfg);
@@ -1872,14 +1884,30 @@ fn run(a: &Args) {
                     _ => "bad-op".into(),
                 }
             }
-            "call" if toks.len() == 2 && cur.is_some() && num(&toks[1]).is_some() => {
-                let req = num(&toks[1]).unwrap();
-                let svc = cur.as_ref().unwrap();
+            "call" | "calld"
+                if cur.is_some() && ((head == "call" && toks.len() == 2) || (head == "calld" && toks.len() == 3)) && toks[1..].iter().all(|t| num(t).is_some()) =>
+            {
+                // `calld k req`: the SERVICE value is dropped after `call` returned its future and the
+                // future answered Pending k times (k = 0: before the first poll); the call future must own
+                // what it needs.  Afterwards there is no current service.
+                let drop_after = if head == "calld" { num(&toks[1]).map(|k| k as usize) } else { None };
+                let req = num(toks.last().unwrap()).unwrap();
+                let owner = RefCell::new(cur.take());
                 let polls = RefCell::new(vec![]);
                 let r = catch(|| {
-                    let mut fut = svc.call(req);
-                    drive(fut.as_mut(), &w, &polls)
+                    let mut fut = owner.borrow().as_ref().unwrap().call(req);
+                    drive_hook(fut.as_mut(), &w, &polls, &mut |n| {
+                        if drop_after == Some(n) {
+                            CELLS.with(|c| c.borrow_mut().clear());
+                            drop(owner.borrow_mut().take());
+                        }
+                    })
                 });
+                if drop_after.is_none() {
+                    cur = owner.into_inner();
+                } else {
+                    CELLS.with(|c| c.borrow_mut().clear());
+                }
                 let log = take_log();
                 let polls = polls.into_inner();
                 let k: u32 = polls.iter().map(|p: &PollRec| wakes_of(p.w)).sum();
@@ -1896,7 +1924,15 @@ fn run(a: &Args) {
                     let mut want_log = vec![];
                     let want = ref_call(ast, req, &mut want_log);
                     if !matches!(&r, Ok(Drv::Done(x)) if *x == want) {
-                        if has_wrapper(ast) && side_call(ast, req, w.get()) == Some(want) {
+                        let mut blamed_drop = false;
+                        if let Some(n) = drop_after {
+                            // is it the drop?  the same call on the real tree with the service kept alive
+                            if side_call_of(ast, req, w.get()) == Some(want) {
+                                blamed_drop = true;
+                                rep.t3("C11", &format!("owner-dropped: call({req}) of {ast}: the call future {} after its service was dropped (after {n} Pending polls); with the service alive the real code yields {want:?}: the future must own what it needs", if r.is_err() { format!("panicked ({})", r.as_ref().err().unwrap()) } else { format!("behaved differently (resolved to {res})") }));
+                            }
+                        }
+                        if !blamed_drop && has_wrapper(ast) && side_call(ast, req, w.get()) == Some(want) {
                             rep.t3("C11", &format!("wrapper-not-transparent: call({req}) of {ast}{held} {}, differs from the unwrapped tree: the real {} yields {want:?}", if r.is_err() { format!("panicked ({})", r.as_ref().err().unwrap()) } else { format!("resolved to {res}") }, unwrapped(ast)));
                         }
                         rep.t3("C11", &format!("composition-result: call({req}) of {ast} resolved to {res}, the reference composition is {want:?}"));
@@ -1933,15 +1969,22 @@ fn run(a: &Args) {
                     }
                     check_polls(&mut rep, &format!("call({req}) of {ast}"), &log, &polls, r.is_err());
                 }
+                if drop_after.is_some() {
+                    cur_ast = None;
+                }
                 if r.is_err() {
                     format!("{} r={res}", fmt_log(&log))
                 } else {
                     format!("{} r={res} k={k}", fmt_log(&log))
                 }
             }
-            "fac" => {
-                let mut p = P { t: &toks, i: 1 };
-                let parsed = p.fac().and_then(|f| {
+            "fac" | "facd" => {
+                // `facd k F cfg`: the FACTORY value is dropped after `new_service` returned the future and
+                // the future answered Pending k times (k = 0: before the first poll, a temporary factory)
+                let facd = head == "facd";
+                let drop_after = if facd { toks.get(1).and_then(|t| num(t)).map(|k| k as usize) } else { None };
+                let mut p = P { t: &toks, i: if facd { 2 } else { 1 } };
+                let parsed = (if facd && drop_after.is_none() { None } else { Some(()) }).and_then(|_| p.fac()).and_then(|f| {
                     let cfg = p.num()?;
                     let mut ids = vec![];
                     fac_leaf_ids(&f, &mut ids);
@@ -1960,9 +2003,13 @@ fn run(a: &Args) {
                         cur_ast = None;
                         let polls = RefCell::new(vec![]);
                         let r = catch(|| {
-                            let fac = build_fac(&f);
-                            let mut fut = fac.new_service(cfg);
-                            drive(fut.as_mut(), &w, &polls)
+                            let fac = RefCell::new(Some(build_fac(&f)));
+                            let mut fut = fac.borrow().as_ref().unwrap().new_service(cfg);
+                            drive_hook(fut.as_mut(), &w, &polls, &mut |n| {
+                                if drop_after == Some(n) {
+                                    drop(fac.borrow_mut().take());
+                                }
+                            })
                         });
                         let log = take_log();
                         let polls = polls.into_inner();
@@ -1986,7 +2033,15 @@ fn run(a: &Args) {
                         };
                         if !agrees {
                             let want_unit = want.res.as_ref().map(|_| ()).map_err(|e| *e);
-                            if fac_has_ptr(&f) && side_fac(&f, cfg, w.get()) == Some(want_unit) {
+                            let mut blamed_drop = false;
+                            if let Some(n) = drop_after {
+                                // is it the drop?  the same new_service on the real tree with the factory kept alive
+                                if side_fac_of(&f, cfg, w.get()) == Some(want_unit) {
+                                    blamed_drop = true;
+                                    rep.t3("C11", &format!("owner-dropped: {what}: the init future {} after its factory was dropped (after {n} Pending polls); with the factory alive the real code yields {want_unit:?}: the future must own what it needs", if r.is_err() { format!("panicked ({})", r.as_ref().err().unwrap()) } else { format!("behaved differently (resolved to {res})") }));
+                                }
+                            }
+                            if !blamed_drop && fac_has_ptr(&f) && side_fac(&f, cfg, w.get()) == Some(want_unit) {
                                 rep.t3("C11", &format!("wrapper-not-transparent: {what} {}, differs from the unwrapped tree: the real {} yields {want_unit:?}", if r.is_err() { format!("panicked ({})", r.as_ref().err().unwrap()) } else { format!("resolved to {res}") }, fac_unwrapped(&f)));
                             }
                             rep.t3("C11", &format!("factory-result: {what} resolved to {res}, the reference is {:?}", want.res.as_ref().map(|s| s.to_string())));
@@ -2721,8 +2776,15 @@ fn fac_script(f: &F, kk: usize, mut code: usize) -> F {
 }
 
 fn emit_fac_case(w: &mut dyn Write, name: &str, f: &F, cfg: u32) {
+    emit_fac_case_d(w, name, f, cfg, None)
+}
+/// `drop_after: Some(k)`: the factory value is dropped after k Pending polls of the init future
+fn emit_fac_case_d(w: &mut dyn Write, name: &str, f: &F, cfg: u32, drop_after: Option<usize>) {
     writeln!(w, "case {name}").unwrap();
-    writeln!(w, "fac {f} {cfg}").unwrap();
+    match drop_after {
+        None => writeln!(w, "fac {f} {cfg}").unwrap(),
+        Some(k) => writeln!(w, "facd {k} {f} {cfg}").unwrap(),
+    }
     if ref_fac(f, cfg, &mut FacTrace::default()).res.is_ok() {
         writeln!(w, "ready\nready\ncall 1\nready\ncall 2").unwrap();
         let mut ids = vec![];
@@ -2730,6 +2792,8 @@ fn emit_fac_case(w: &mut dyn Write, name: &str, f: &F, cfg: u32) {
         if let Some(i) = ids.first() {
             writeln!(w, "reset {i} 1 {}\nready\nready", oe(cfg % 2 == 0)).unwrap();
         }
+        // the service value dropped while its call future is in flight
+        writeln!(w, "calld {} 3", (cfg as usize + drop_after.unwrap_or(0)) % 3).unwrap();
     } else {
         writeln!(w, "ready").unwrap(); // no service: rejected on both sides
     }
@@ -2752,7 +2816,8 @@ fn gen_catalogue(w: &mut dyn Write) {
     let mut n = 0;
     let mut svc_case = |w: &mut dyn Write, tag: &str, s: &S, ops: &str| {
         n += 1;
-        writeln!(w, "case cat-{tag}-{n}\nsvc {s}\n{ops}").unwrap();
+        // the last op drops the service value while its call future is in flight
+        writeln!(w, "case cat-{tag}-{n}\nsvc {s}\n{ops}\ncalld {} {}", n % 3, 1 + n % 2).unwrap();
     };
     let oks = [true, false];
     for k in 0..3u32 {
@@ -2793,6 +2858,11 @@ fn gen_catalogue(w: &mut dyn Write) {
     let mut fac_case = |w: &mut dyn Write, tag: &str, f: &F, cfg: u32| {
         n += 1;
         emit_fac_case(w, &format!("cat-{tag}-{n}"), f, cfg);
+        // the same with the factory value dropped right after new_service / after the k-th Pending
+        for k in 0..3 {
+            n += 1;
+            emit_fac_case_d(w, &format!("cat-{tag}-dropped{k}-{n}"), f, cfg, Some(k));
+        }
     };
     for k in 0..3u32 {
         for o in oks {
@@ -2880,6 +2950,10 @@ fn gen(a: &Args) {
         "ready",
         "call 3",
         "reset 0 1 ok",
+        "calld 0 1",
+        "facd x (ffn 11 ok) 1",
+        "facd 0 (ffn 11 ok)",
+        "calld 1",
         "frobnicate",
     ] {
         writeln!(w, "{l}").unwrap();
@@ -2900,6 +2974,8 @@ fn gen(a: &Args) {
             let f = fac_script(sh, kk, if full { d } else { rng.below(total) });
             n += 1;
             emit_fac_case(&mut w, &format!("fx-{n}"), &f, 1 + (d % 7) as u32);
+            n += 1;
+            emit_fac_case_d(&mut w, &format!("fx-{n}"), &f, 1 + (d % 7) as u32, Some(d % 3));
         }
     }
 
@@ -2930,6 +3006,7 @@ fn gen(a: &Args) {
                 if nl > 0 {
                     writeln!(w, "reset 0 1 {}\nready\nready", oe(d % 2 == 0)).unwrap();
                 }
+                writeln!(w, "calld {} 3", d % 3).unwrap();
             } else {
                 emit_ops(&mut w, &mut rng, 5, ready_bias, nl);
             }
@@ -2948,7 +3025,11 @@ fn gen(a: &Args) {
             n += 1;
             let cfg = rng.below(10) as u32;
             writeln!(w, "case fshape-{n}").unwrap();
-            writeln!(w, "fac {f} {cfg}").unwrap();
+            if n % 2 == 0 {
+                writeln!(w, "facd {} {f} {cfg}", (n / 2) % 3).unwrap();
+            } else {
+                writeln!(w, "fac {f} {cfg}").unwrap();
+            }
             if ref_fac(&f, cfg, &mut FacTrace::default()).res.is_ok() {
                 emit_ops(&mut w, &mut rng, 4, ready_bias, nx as usize);
             } else {
@@ -2968,7 +3049,11 @@ fn gen(a: &Args) {
             nleaves = g.next_leaf as usize;
             let cfg = g.rng.below(10) as u32;
             writeln!(w, "case rfac-{c}").unwrap();
-            writeln!(w, "fac {f} {cfg}").unwrap();
+            if c % 3 == 1 {
+                writeln!(w, "facd {} {f} {cfg}", g.rng.below(3)).unwrap();
+            } else {
+                writeln!(w, "fac {f} {cfg}").unwrap();
+            }
             if ref_fac(&f, cfg, &mut FacTrace::default()).res.is_err() {
                 continue;
             }
@@ -2981,6 +3066,9 @@ fn gen(a: &Args) {
         }
         let nops = rng.range(2, 7);
         emit_ops(&mut w, &mut rng, nops, ready_bias, nleaves);
+        if rng.chance(1, 3) {
+            writeln!(w, "calld {} {}", rng.below(3), rng.below(10)).unwrap();
+        }
     }
     w.flush().unwrap();
 }
